@@ -357,6 +357,32 @@ func run(c *vf.Ctx) {
 		if h.OverlapFaults > 0 && len(h.Leaders) >= 2 {
 			c.Nontrivial(fmt.Sprintf("case%d/%v", i, h.Faults))
 		}
+		// A request applied twice is also directly visible when a read shows its
+		// token twice (the oplog query at the end of the history needs a stable
+		// leader and may not have been possible).
+		{
+			have := map[string]bool{}
+			for _, t := range h.DupTokens {
+				have[t] = true
+			}
+			for _, r := range h.Recs {
+				if r.In.Kind != "read" || r.Ret == 0 || r.Out.Unknown || r.Out.Failed {
+					continue
+				}
+				seen := map[string]bool{}
+				for _, t := range strings.Split(r.Out.Val, ",") {
+					if t == "" {
+						continue
+					}
+					if seen[t] && !have[t] {
+						have[t] = true
+						h.DupTokens = append(h.DupTokens, t)
+						c.Count("duplicates_seen_in_read_values_only", 1)
+					}
+					seen[t] = true
+				}
+			}
+		}
 		// Requests applied more than once (observable through the oplog tokens).
 		dupKeys := map[int]bool{}
 		if len(h.DupTokens) > 0 {
